@@ -403,8 +403,11 @@ def construct(f, suffix=''):
 ORDER = {'ALIAS': 0, 'SHALLOW': 1, 'DEEP': 2, 'FRESH': 2, 'CALL': -1}
 
 
-def copy_kind(e):
-  """How much the value of expression `e` is un-shared from its operand."""
+def copy_kind(e, deep_funcs=()):
+  """How much the value of expression `e` is un-shared from its operand.
+  `deep_funcs`: names of repository functions shown to be recursive copiers."""
+  if isinstance(e, ast.Call) and isinstance(e.func, ast.Name) and e.func.id in deep_funcs and len(e.args) == 1:
+    return 'DEEP'
   if isinstance(e, ast.Subscript):
     if isinstance(e.slice, ast.Slice):
       return 'SHALLOW'
@@ -693,3 +696,54 @@ def card_cases(fs, M, cases=(0, 1, 2, 3)):
     if ok:
       out.add(c)
   return out
+
+
+def is_recursive_copier(fnode):
+  """Does function `fnode(x)` rebuild a nested dict / list structure level by
+  level (every container level is a new object), i.e. is it a hand-written
+  deep copy of the *containers*?  Shape accepted:
+      out = {} | []
+      for k, v in x.items(): out[k] = fnode(v) | copy.deepcopy(v)   [under isinstance tests]
+      return out
+  or the comprehension equivalents.  Leaves may be shared or deep-copied."""
+  a = fnode.args
+  if len(a.args) != 1 or a.vararg or a.kwarg:
+    return False
+  p = a.args[0].arg
+  name = fnode.name
+
+  def fresh_value(v):
+    """v never aliases a *container* of the input level."""
+    if isinstance(v, ast.Call) and isinstance(v.func, ast.Name) and v.func.id == name:
+      return True
+    if isinstance(v, ast.Call) and u(v.func) in ('copy.deepcopy', 'deepcopy'):
+      return True
+    if isinstance(v, ast.IfExp):
+      return fresh_value(v.body) and fresh_value(v.orelse)
+    return False
+  rets = [r for r in ast.walk(fnode) if isinstance(r, ast.Return) and r.value is not None]
+  if not rets:
+    return False
+  for r in rets:
+    v = r.value
+    if isinstance(v, ast.DictComp) and len(v.generators) == 1 and u(v.generators[0].iter) == p + '.items()' and fresh_value(v.value):
+      continue
+    if isinstance(v, ast.Name):
+      out = v.id
+      inits = [x for x in ast.walk(fnode) if isinstance(x, ast.Assign) and len(x.targets) == 1 and u(x.targets[0]) == out]
+      if not inits or not all(isinstance(x.value, (ast.Dict, ast.List)) and not (getattr(x.value, 'keys', None) or getattr(x.value, 'elts', None)) for x in inits):
+        return False
+      stores = [x for x in ast.walk(fnode) if isinstance(x, ast.Assign) and len(x.targets) == 1 and isinstance(x.targets[0], ast.Subscript)
+                and u(x.targets[0].value) == out]
+      if not stores or not all(fresh_value(x.value) for x in stores):
+        return False
+      loops = [x for x in ast.walk(fnode) if isinstance(x, ast.For) and u(x.iter) in (p + '.items()', p)]
+      if not loops:
+        return False
+      # nothing else mutates or aliases `out`
+      others = [x for x in ast.walk(fnode) if isinstance(x, ast.Call) and isinstance(x.func, ast.Attribute) and u(x.func.value) == out]
+      if others:
+        return False
+      continue
+    return False
+  return True
